@@ -189,3 +189,20 @@ Proof.
       * replace ((f * (INR N - 1) + 1) / INR N - f) with ((1 - f) / INR N) by (field; lra).
         unfold Rdiv. apply Rmult_le_compat_r; [ left; apply Rinv_0_lt_compat; exact PN | lra ].
 Qed.
+
+(* ------------------------------------------------------------------------------------- *)
+(* superposition with modulated modes.  One instance is  Z = mu a + nu b + sqrt(mu nu) x  where a, b, x are the
+   single-mode parts and the cross term of the unmodulated fields (E a = A, E b = B, E x = 0, Cov a = CA,
+   Cov b = CB, E x_i x_j = W_ij, and the cross moments of x with a and b vanish: Quadrature8.E8_covariance) and
+   (mu, nu) are modulation factors independent of the fields with E mu = E nu = 1, Var mu = vA, Var nu = vB,
+   Cov (mu, nu) = ic.  Second moments multiply (independence), so with
+     Emm = 1 + vA, Enn = 1 + vB, Emn = 1 + ic (= E sqrt(mu nu)^2)
+   the covariance of Z is the sum of the two modulated single-mode covariances, ic (A_i B_j + A_j B_i) and
+   (1 + ic) W -- what superposed::get_covariance adds to the modes' own predictions. *)
+Theorem modulated_superposed_instance vA vB ic CAij CBij Wij Ai Aj Bi Bj :
+  let Emm := 1 + vA in let Enn := 1 + vB in let Emn := 1 + ic in
+  let EZi := Ai + Bi in let EZj := Aj + Bj in
+  let EZZ := Emm * (CAij + Ai * Aj) + Enn * (CBij + Bi * Bj) + Emn * (Ai * Bj + Bi * Aj) + Emn * Wij in
+  EZZ - EZi * EZj
+  = ((1 + vA) * CAij + vA * (Ai * Aj)) + ((1 + vB) * CBij + vB * (Bi * Bj)) + (1 + ic) * Wij + ic * (Ai * Bj + Aj * Bi).
+Proof. cbv zeta. ring. Qed.
